@@ -96,3 +96,40 @@ theorem ledger_run (s : Store) (ops : List Op) : ledgerSum (run s ops) = ledgerS
 
 end Store
 end Vipnode
+
+namespace Vipnode
+namespace Store
+open AList
+
+/-- every node record is stored under its own id (both drivers key `SetNode` by `n.ID`) -/
+def KeysMatch (s : Store) : Prop := ∀ k n, s.nodes.get k = some n → n.id = k
+
+theorem keysMatch_empty : KeysMatch Store.empty := by
+  intro k n h; simp [Store.empty] at h
+
+theorem keysMatch_set (s : Store) (k : String) (n : Node) (h : KeysMatch s) (hk : n.id = k) (s' : Store)
+    (hs : s'.nodes = s.nodes.set k n) : KeysMatch s' := by
+  intro k' n' h'
+  rw [hs] at h'
+  by_cases e : k = k'
+  · subst e; rw [get_set_eq] at h'; cases h'; exact hk
+  · rw [get_set_ne _ _ e] at h'; exact h k' n' h'
+
+theorem keysMatch_setNode (s s' : Store) (n : Node) (h : KeysMatch s) (hs : s.setNode n = .ok s') : KeysMatch s' := by
+  unfold setNode at hs; split at hs <;> cases hs
+  exact keysMatch_set s n.id n h rfl _ rfl
+
+theorem keysMatch_unp (s s' : Store) (id r b now i) (h : KeysMatch s) (hs : s.updateNodePeers id r b now = .ok (s', i)) :
+    KeysMatch s' := by
+  unfold updateNodePeers at hs
+  split at hs
+  · cases hs
+  · rename_i n hn
+    cases hs
+    exact keysMatch_set s id { n with lastSeen := now, block := b } h (h id n hn) _ rfl
+
+theorem keysMatch_of_nodes_eq (s s' : Store) (h : KeysMatch s) (e : s'.nodes = s.nodes) : KeysMatch s' := by
+  intro k n hk; rw [e] at hk; exact h k n hk
+
+end Store
+end Vipnode
